@@ -88,7 +88,7 @@ def _k1_job(job):
             return out
         if r == z3.sat:
             m = s.model(); edges = edges_of(m); cyc = TC.reach_cyclic(K, edges)
-            up = sorted((k_[1], k_[2]) for k_, e in sym.items() if len(k_) == 3 and z3.is_true(m.eval(e, True)) and (k_[1], k_[2]) in edges)
+            up = sorted((k_[1], k_[2]) for k_, e in sym.items() if isinstance(k_, tuple) and len(k_) == 3 and z3.is_true(m.eval(e, True)) and (k_[1], k_[2]) in edges)
             role_g = '%s/K%d/%s%s' % (real, K, '_'.join('%d%d' % e for e in edges) or 'empty', ('/respelled-' + '_'.join('%d%d' % e for e in up)) if up else ''); src = _source(real, K, edges, up)
             if pr.panic:
                 part.add('C07/K1/panic/' + role_g, 'toposort panics on %s graph %s: %s' % (real, edges, pr.panic.msg), {'realisation': real, 'edges': edges, 'source': src}, ('graph', (src, cyc)))
